@@ -145,7 +145,12 @@ func c11(d *sim.D) {
 func c11Inferior(d *sim.D, s *script, n *node, st sim.Step) {
 	old := s.blocks[len(s.blocks)-1]
 	num := old.num - uint64(st.Arg(0))%old.num
-	_, err := n.feed(num, cloneLogs(old.logs))
+	logs := cloneLogs(old.logs)
+	if st.Arg(1)%2 == 1 { // the execution client emits a BlockLogs entry for log-less ranges too
+		logs = nil
+		d.Probe("inferior-block-without-logs")
+	}
+	_, err := n.feed(num, logs)
 	d.Fault("inferior-block")
 	d.Logf("inferior block %d err=%v", num, err != nil)
 	if !isInferior(err) {
@@ -234,6 +239,8 @@ type outcome struct {
 
 // execute runs the whole program once with at most one fault; after the fault it restarts on the
 // surviving database and resumes from the recorded last processed block.
+const faultStaleBlock = 9 // not a storage fault: see the end of c12Execute
+
 func c12Execute(d *sim.D, steps []sim.Step, at, mode int, log bool) (*outcome, string) {
 	inner, closeDB := openDB(d)
 	defer closeDB()
@@ -249,6 +256,9 @@ func c12Execute(d *sim.D, steps []sim.Step, at, mode int, log bool) (*outcome, s
 		return nil, "boot: " + err.Error()
 	}
 	fdb.Calls, fdb.Ops, fdb.At, fdb.Mode = 0, nil, at, mode
+	if mode == faultStaleBlock {
+		fdb.At, fdb.Mode = 0, sim.FaultNone
+	}
 	out := &outcome{}
 	restart := func() string {
 		// only committed state survives; every in-memory object is rebuilt
@@ -298,6 +308,18 @@ func c12Execute(d *sim.D, steps []sim.Step, at, mode int, log bool) (*outcome, s
 	out.points, out.ops = fdb.Calls, fdb.Ops
 	if out.crash || out.errRet {
 		out.points = 0
+	}
+	if mode == faultStaleBlock && len(s.blocks) >= 2 {
+		// a block that is not newer than the last processed one - here a log-less one, as the execution
+		// client emits for empty ranges - must be refused; a restart afterwards resumes where it should
+		b := s.blocks[at%(len(s.blocks)-1)]
+		if _, err := n.feed(b.num, nil); !isInferior(err) {
+			return out, fmt.Sprintf("log-less block %d (last processed %d) was not refused with ErrInferiorBlock: err=%v", b.num, s.blocks[len(s.blocks)-1].num, err)
+		}
+		out.fired = "stale-empty-block"
+		if why := restart(); why != "" {
+			return out, why
+		}
 	}
 	// a fresh node on the final database is what a user sees after the next start
 	fin, err := boot(sim.NewFaultDB(inner))
@@ -387,6 +409,18 @@ func c12(d *sim.D) {
 	}
 	if !ok {
 		return
+	}
+	// a stale log-less block after the last one, then a restart (every run)
+	if got, why := c12Execute(d, prog, len(d.Steps), faultStaleBlock, false); why != "" {
+		d.Fault("stale-empty-block")
+		d.Violate("inferior-block-accepted", "log-less-block", "%s", why)
+		return
+	} else if got != nil && got.fired == "stale-empty-block" {
+		d.Fault("stale-empty-block")
+		if got.final != ref.final {
+			d.Violate("state-differs-after-recovery", "stale-empty-block", "a refused stale block followed by a restart changed the final state: %s", firstDiff(got.final, ref.final))
+			return
+		}
 	}
 	for i := 0; i+1 < len(st.A); i += 2 {
 		k, mode := int(st.A[i]), int(st.A[i+1])
